@@ -160,6 +160,32 @@ let c17_judge c obs =
      | _ -> "bad observation-shape")
   | _ -> "bad observation-shape"
 
+(* ---------------- C18 ---------------- *)
+let ssource = function SQuery -> "query" | SForm -> "form" | SMultipart -> "multipart" | SJson -> "json" | SXml -> "xml" | SError -> "err"
+let c18_model = function
+  | L [A "src"; m; ct] -> L [A "src"; A (ssource (auto_source (str m) (str ct)))]
+  | L (A _ :: _) -> L [A "judge-only"]
+  | x -> failwith ("c18: bad case " ^ to_string x)
+let c18_judge c obs =
+  match c, obs with
+  | L [A "src"; m; ct], L [A "src"; A got] ->
+    (* the documented table on the media type (text before the first ';', trimmed) *)
+    let cts = str ct in
+    let rec upto = function [] -> [] | x :: r -> if int_of_n x = 59 then [] else x :: upto r in
+    let mt = trim_space (upto cts) in
+    let exp = if has_body (str m) then ssource (doc_source mt) else "query" in
+    if exp = got then "ok"
+    else if exp = "err" && got <> "err" then "bad substring-content-type-dispatch media-type=" ^ atom_of_str mt ^ " bound-as=" ^ got
+    else "bad wrong-source expected=" ^ exp ^ " got=" ^ got
+  | L (A "rt" :: A f :: _), L [A "rt"; A r] -> if r = "ok" then "ok" else "bad roundtrip-" ^ r ^ " format=" ^ f
+  | L (A "mal" :: _), L [A "mal"; A r] -> if r = "panic" then "bad malformed-input-panics" else "ok"
+  | L [A "val"; A en; A valid; A f], L [A "val"; A r] ->
+    if r = "panic" then "bad validation-panics"
+    else if en = "t" && valid = "f" && r = "ok" then "bad bind-succeeds-on-invalid-struct format=" ^ f
+    else if (en = "f" || valid = "t") && r <> "ok" then "bad valid-input-rejected format=" ^ f
+    else "ok"
+  | _ -> "bad observation-shape"
+
 (* judge by spec equality: the observation must be exactly what the spec function yields *)
 let judge_eq spec c obs =
   let e = to_string (spec c) in
@@ -171,6 +197,7 @@ let rec model_of p = match p with
   | "C08" -> c08_model
   | "C20" -> c20_run false
   | "C17" -> c17_model
+  | "C18" -> c18_model
   | "C16" -> C16.model
   | "C15" -> C15.model
   | "C04" | "C05" | "C12" | "C09" | "C10" -> Rp.model
@@ -186,6 +213,7 @@ let judge_of = function
   | "C08" -> c08_judge
   | "C20" -> c20_judge
   | "C17" -> c17_judge
+  | "C18" -> c18_judge
   | "C16" -> C16.judge
   | "C15" -> C15.judge
   | "C12" -> Rp.c12_judge
